@@ -369,4 +369,101 @@ theorem idCells_uses_source_cols (e l v : Int) (i : Nat) :
 
 end Phase4
 
+/-! ### phase 5: the tables as `Table` exposes them do not depend on the order of the log -/
+
+/-- [phase 5] the padded tables (column order + `Missing` cells) of a clean run are exactly `specTables`: each params table is one
+insertion of `specParams`, the interactions table one insertion per triple (in id order) of its `specRows` — this replaces the
+existential grouping of `tables_of_result` by the explicit one -/
+theorem tables_spec (rnd : Rat → Rat) (info : PyDict) (txs : List Tx) (hc : CleanRun txs) :
+    tablesOf true (fileAfter rnd true info none txs) = .ok (specTables rnd txs) := tablesOf_run rnd info txs hc
+
+/-- [phase 5] `tablesOf` order independence: for ANY permutation `txs'` of a clean run's transactions the four padded tables —
+column order and `Missing` padding included — are those of `txs` -/
+theorem tables_order_invariant (rnd : Rat → Rat) (info : PyDict) (txs txs' : List Tx) (hp : txs.Perm txs') (hc : CleanRun txs) :
+    tablesOf true (fileAfter rnd true info none txs') = .ok (specTables rnd txs)
+    ∧ tablesOf true (fileAfter rnd true info none txs) = .ok (specTables rnd txs) :=
+  tables_order_invariant' rnd info txs txs' hp hc
+
+/-- [phase 5] … and so are the tables of a restored run on any kept part of the log (`keep`) that appends the rest (`txs₂`), in any order -/
+theorem tables_punched_log (rnd : Rat → Rat) (info : PyDict) (txs keep txs₂ : List Tx) (hc : CleanRun txs)
+    (hp : (keep ++ txs₂).Perm txs) :
+    tablesOf true (fileAfter rnd true info (some (fileAfter rnd true info none keep)) txs₂) = .ok (specTables rnd txs) :=
+  tables_punched_log' rnd info txs keep txs₂ hc hp
+
+/-- [phase 5] the specified insertion groups hold exactly the specified interaction rows, in order; no group is empty -/
+theorem specGroups_spec (rnd : Rat → Rat) (txs : List Tx) :
+    (specGroups rnd txs).flatten = specInteractions rnd txs ∧ ∀ g ∈ specGroups rnd txs, g ≠ [] := by
+  refine ⟨specGroups_flatten rnd txs, ?_⟩
+  intro g hg
+  simp only [specGroups, List.mem_filter, Bool.not_eq_eq_eq_not, Bool.not_true] at hg
+  intro e; simp [e] at hg
+
+/-- a late column: the second triple (in id order) brings field `b`; logged first or last, `b` is the last column and the first
+triple's row shows `Missing` there -/
+example : (match tablesOf true (fileAfter round5 true [] none [.t4 [0, 0, 1] [[(.str "b", .int 2)]], .t4 [0, 0, 0] [[(.str "c", .int 1)]]]) with
+      | .ok ts => ts.map (fun t => (t.columns, t.rows.map (fun r => r.map Option.isSome)))
+      | .error _ => [])
+    = [(["environment_id"], []), (["learner_id"], []), (["evaluator_id"], []),
+       (["environment_id", "learner_id", "evaluator_id", "index", "c", "b"],
+        [[true, true, true, true, true, false], [true, true, true, true, false, true]])] := by decide +kernel
+
+/-- [phase 5] `CleanRun` is decidable: the executable test the driver reports is exact -/
+theorem cleanRunB_iff (txs : List Tx) : cleanRunB txs = true ↔ CleanRun txs :=
+  ⟨cleanRunB_sound txs, cleanRunB_complete txs⟩
+
+/-! ### phase 5: `Result.__init__` — the learner cache and `full_name` are functions of the padded learners table -/
+
+/-- [phase 5] `full_name_spec`: for a table built by inserting `groups` into `init` columns, the `full_name` ingredients of every row are
+computed from that row's OWN fields (the `Missing` padding for other learners' columns never shows); the `k=v` parts are exactly the
+row's fields other than `''`, `family`, `learner_id`, each with its value, and they follow the table's column order -/
+theorem full_name_spec (init : List String) (groups : List (List Row)) :
+    lrnNames (padTable init groups) = groups.flatten.map (fun r => fullNameOf (padTable init groups).columns (fun c => r.lookup c))
+    ∧ (∀ r ∈ groups.flatten, ∀ k v, (k, v) ∈ nameParams (padTable init groups).columns (fun c => r.lookup c)
+        ↔ (k ≠ "" ∧ k ≠ "family" ∧ k ≠ "learner_id" ∧ r.lookup k = some v))
+    ∧ (∀ r : Row, ((nameParams (padTable init groups).columns (fun c => r.lookup c)).map (·.1)).Sublist (padTable init groups).columns) := by
+  refine ⟨lrnNames_padTable init groups, ?_, fun r => nameParams_sublist _ _⟩
+  intro r hr k v
+  apply nameParams_mem
+  intro c w hc
+  obtain ⟨g, hg, hrg⟩ := List.mem_flatten.mp hr
+  exact (tableCols_mem init groups c).mpr (Or.inr ⟨g, hg, r, hrg, lookup_some_key r c w hc⟩)
+
+/-- [phase 5] hence for a clean run the learner cache does not depend on the order of the log either: it is that of `specTables` -/
+theorem full_name_order_invariant (rnd : Rat → Rat) (info : PyDict) (txs txs' : List Tx) (hp : txs.Perm txs') (hc : CleanRun txs) :
+    (tablesOf true (fileAfter rnd true info none txs')).map (fun ts => ts.map lrnNames)
+      = .ok ((specTables rnd txs).map lrnNames) := by
+  rw [(tables_order_invariant' rnd info txs txs' hp hc).1]; rfl
+
+/-- two learners with different fields: each name lists its own fields only; `vw` needs family, args and seed -/
+example : (lrnNames (padTable ["learner_id"] [[[("learner_id", .int 0), ("family", .str "vw"), ("args", .str "--cb 2"), ("seed", .int 1)],
+      [("learner_id", .int 1), ("family", .str "eps"), ("epsilon", .flt (1/10))]]])).map (fun o => o.map (fun n => (n.params.map (·.1), n.vw)))
+    = [some (["args", "seed"], true), some (["epsilon"], false)] := by decide +kernel
+
+/-! ### phase 5: translator — the record-writing / record-reading dispatch read off the source as tables -/
+section Phase5Shapes
+open Coba.Generated
+
+/-- [phase 5] the (transaction tag → record tag, elements written) table of `TransactionEncode.filter` and the (record tag → variable, `trx[k]` read)
+table of `TransactionResult.filter`, both regenerated from the CURRENT source on every run, are the model's -/
+theorem source_shapes_match : C07.encShapes = modelEncShapes ∧ C07.resShapes = modelResShapes := source_shapes_match'
+
+/-- [phase 5] round trip over the EXTRACTED tables: the line the source's encoder table writes for a transaction, read through the source's reader
+table, is exactly the record of the model's encoder (`encodeTx`) — for every transaction, both encoder variants, every rounding function -/
+theorem line_roundtrip_source (rnd : Rat → Rat) (fixed : Bool) (tx : Tx) :
+    (encodeLine C07.encShapes rnd fixed tx).bind (decodeLine C07.resShapes) = some (encodeTx rnd fixed tx) := by
+  rw [source_shapes_match'.1, source_shapes_match'.2]; exact line_roundtrip_model rnd fixed tx
+
+/-- [phase 5] … and for whole logs -/
+theorem log_roundtrip_source (rnd : Rat → Rat) (fixed : Bool) (txs : List Tx) :
+    (encodeLines C07.encShapes rnd fixed txs).bind (decodeLines C07.resShapes) = some (txs.map (encodeTx rnd fixed)) := by
+  rw [source_shapes_match'.1, source_shapes_match'.2]; exact lines_roundtrip_model rnd fixed txs
+
+/-- [phase 5] hence a clean run written and read through the source's tables (version line from the source) is `specResult` -/
+theorem run_spec_via_source_tables (rnd : Rat → Rat) (info : PyDict) (txs : List Tx) (hc : CleanRun txs) :
+    ((encodeLines C07.encShapes rnd true (.t0 info :: txs)).bind (decodeLines C07.resShapes)).map
+        (fun recs => readLog true (Rec.version C07.encVersion :: recs)) = some (.ok (specResult rnd info txs)) := by
+  rw [log_roundtrip_source, Option.map_some, ← run_spec' rnd info txs hc]; rfl
+
+end Phase5Shapes
+
 end Coba.C07
